@@ -26,11 +26,11 @@ use serde_json::json;
 /// and bytes) but records it relative to the root. With cwd != root: manual checkpoints that name
 /// a file relatively are skipped, and write/apply_patch run through the hook-less runner (the
 /// automatic checkpoint always passes the tool's relative argument). Counted.
-const EXCLUDE_KNOWN_F3_CWD: bool = true;
+const EXCLUDE_KNOWN_F3_CWD: bool = false;
 /// F21: `write` (atomic) onto a path that is a directory fails after writing its temp file and
 /// leaves `<stem>.tmp-<uuid>` behind — a file the automatic checkpoint does not cover. Those
 /// write steps are skipped. Counted.
-const EXCLUDE_KNOWN_F21: bool = true;
+const EXCLUDE_KNOWN_F21: bool = false;
 
 fn excluded(flag: bool, name: &str) -> bool {
     if !flag {
